@@ -215,15 +215,25 @@ pub fn check_column(expected: &[Vec<Val>], kind: Kind, obs: &Obs, rng: &mut Rng,
     // range lookups
     let all: Vec<u128> = exp_rows.iter().flatten().copied().collect();
     let top: u128 = if obs.ty == "ip" { u128::MAX } else if obs.ty == "bool" { 1 } else { u64::MAX as u128 };   // image of the mapping
-    let n_lookups = if n > 20000 { 3 } else { 6 };
+    let n_lookups = if n > 20000 { 4 } else { 8 };
+    let gcd = super::gcd_to_min(&all, obs.min.min(all.iter().copied().min().unwrap_or(obs.min)));
     for li in 0..n_lookups {
         let pick = |rng: &mut Rng| -> u128 { match rng.below(7) { 0 => obs.min, 1 => obs.max, 2 => obs.min.saturating_sub(1), 3 => (obs.max + 1).min(top), 4 => 0, 5 => top,
                                                                   _ => if all.is_empty() { rng.next_u64() as u128 } else { (all[rng.below(all.len() as u64) as usize] + rng.below(3) as u128).saturating_sub(1).min(top) } } };
         let (a, b) = (pick(rng), pick(rng));
+        // lookups 1 and 2: upper (and sometimes lower) bound at the u32 boundary of the bit-packed reader, relative to min and gcd
+        let boundary = (li == 1 || li == 2) && obs.ty != "bool";
+        let (a, b) = if boundary {
+            let hi = super::u32_boundary_bound(rng, obs.min, gcd, top);
+            let lo = match rng.below(4) { 0 => super::u32_boundary_bound(rng, obs.min, gcd, top), 1 => 0, 2 => obs.min, _ => a.min(b) };
+            (lo.min(hi), hi.max(lo))
+        } else { (a, b) };
+        if boundary { out.count("column_range_lookups_u32_boundary", 1); }
         let (lo, hi) = if li == 0 && obs.min > 0 { let h = rng.below(obs.min.min(u64::MAX as u128) as u64) as u128; (rng.below(h as u64 + 1) as u128, h) } else if rng.chance(1, 12) { (a.max(b), a.min(b)) } else { (a.min(b), a.max(b)) };
         let d0 = if rng.chance(1, 2) { 0 } else { rng.below(n as u64 + 1) as u32 };
         let d1 = if rng.chance(1, 2) { n as u32 } else { rng.range(d0 as u64, n as u64) as u32 };
         let want: Vec<u32> = (d0..d1).filter(|&d| exp_rows[d as usize].iter().any(|&v| lo <= v && v <= hi)).collect();
+        if super::u32_wrap_sensitive(&all, gcd, lo, hi) { out.count("column_range_lookups_sensitive_to_u32_wrap", 1); }
         let mut d = ctx.clone();
         d["lookup"] = json!({"lo": lo.to_string(), "hi": hi.to_string(), "docs": [d0, d1], "col_min": obs.min.to_string(), "type": obs.ty, "card": format!("{:?}", obs.card)});
         out.count("column_range_lookups", 1);
